@@ -6,6 +6,7 @@ CONSTANTS
   MaxCalls = 0
   MaxRead = 0
   Greedy = FALSE
+  CreditFirst = TRUE
   RecvPolicy = "any"
   CreditRoom <- TraceCreditRoom
   Chunks <- TraceChunks
